@@ -40,6 +40,7 @@ type Engine struct {
 	sweep         bool
 	repoDir       string
 	libDir        string
+	known         []KnownFinding
 }
 
 func newEngine(repoDir, libDir string) *Engine {
@@ -324,6 +325,7 @@ const smtPrelude = `(define-fun go_div ((a Int) (b Int)) Int (ite (>= a 0) (ite 
 (define-fun wf_slice ((s Slice)) Bool (and (>= (sl_len s) 0) (>= (sl_off s) 0) (>= (sl_cap s) (sl_len s)) (>= (sl_arr s) 0) (=> (= (sl_arr s) 0) (and (= (sl_len s) 0) (= (sl_cap s) 0) (= (sl_off s) 0)))))
 (define-fun wf_iface ((i Iface)) Bool (and (>= (if_tag i) 0) (=> (= (if_tag i) 0) (= (if_val i) 0))))
 (declare-const loc_local Int)
+(define-fun wf_time ((t Time)) Bool (and (>= (t_ns t) time_zero_ns) (<= (t_ns t) 253402300799999999999)))
 (define-fun max_alloc () Int 1152921504606846976)
 `
 
@@ -385,6 +387,24 @@ func (r *Run) verifyTop() {
 	}
 	for _, cl := range fc.Requires {
 		r.assume(st, r.evalBool(env, cl))
+	}
+	// guards of known findings on this function's obligations (evaluated over the entry state)
+	r.guards = map[string]*Term{}
+	for i := range e.known {
+		kf := &e.known[i]
+		if kf.Status != "known" || !strings.HasPrefix(kf.Obligation, r.funcLabel()+"#") {
+			continue
+		}
+		if strings.TrimSpace(kf.Guard) == "" {
+			r.guards[kf.Obligation] = nil
+			continue
+		}
+		ge, err := parseExpr(kf.Guard)
+		if err != nil {
+			unsupported("known_findings.json: guard of %s: %v", kf.ID, err)
+		}
+		g := r.evalBool(env, &Clause{Label: "guard", E: ge, Src: kf.Guard, File: "known_findings.json"})
+		r.guards[kf.Obligation] = &g
 	}
 	// vacuity: the preconditions must be satisfiable
 	r.satCheck(st, r.funcLabel()+"#vacuity:requires", fc.Tags, tTrue)
